@@ -17,6 +17,7 @@ import (
 	"regexp"
 	"sort"
 	"strings"
+	"time"
 
 	vh "google.golang.org/protobuf/internal/zz_verif_vh"
 	"google.golang.org/protobuf/proto"
@@ -550,7 +551,14 @@ func runC41(c *vh.Ctx) {
 	}
 	e.runKnownBad(c)
 	batches := c.N(2, 25)
+	start := time.Now()
+	budget := time.Duration(c.N(600, 3600)) * time.Second
 	for b := 0; b < batches && unclassified < 6; b++ {
+		if b > 0 && time.Since(start) > budget {
+			c.R.Notes = appendNote(c.R.Notes, fmt.Sprintf("stopped by the wall-clock budget (%v) after %d of %d batches", budget, b, batches))
+			c.Hist("stopped-by-time-budget")
+			break
+		}
 		r := rand.New(rand.NewSource(c.Seed*7919 + int64(b)))
 		nm := 3 + r.Intn(4)
 		files := genPackage(c, r, b, nm)
